@@ -214,6 +214,41 @@ func c07Calls(s *source, e *emitter, rel, goName, needle, leanName string) {
 	e.stringList(leanName, "calls of `"+needle+"` in `"+goName+"` ("+rel+")", out)
 }
 
+// c07Fields lists `name type` of the fields of struct typeName (the synchronisation objects' types are part
+// of what the model's rows mean: sync.Mutex, sync.WaitGroup, sync.RWMutex, map[string]…).
+func c07Fields(s *source, e *emitter, rel, typeName, leanName string) {
+	f := s.file(rel)
+	var out []string
+	found := false
+	if f != nil {
+		ast.Inspect(f, func(n ast.Node) bool {
+			ts, ok := n.(*ast.TypeSpec)
+			if !ok || ts.Name.Name != typeName {
+				return true
+			}
+			st, ok := ts.Type.(*ast.StructType)
+			if !ok {
+				return true
+			}
+			found = true
+			for _, fl := range st.Fields.List {
+				for _, nm := range fl.Names {
+					out = append(out, nm.Name+" "+s.src(fl.Type))
+				}
+				if len(fl.Names) == 0 {
+					out = append(out, "(embedded) "+s.src(fl.Type))
+				}
+			}
+			return false
+		})
+	}
+	if !found {
+		e.errors = append(e.errors, "struct "+typeName+" not found in "+rel)
+		out = []string{"MISSING"}
+	}
+	e.stringList(leanName, "fields of `"+typeName+"` in "+rel, out)
+}
+
 func init() {
 	register("C07", func(s *source, e *emitter) {
 		const sf = "core/syncx/singleflight.go"
@@ -229,6 +264,10 @@ func init() {
 		c07Shape(s, e, lc, "NewLockedCalls", "newLockedCallsShape")
 		c07Shape(s, e, rm, "ResourceManager.GetResource", "getResourceShape")
 		c07Shape(s, e, rm, "NewResourceManager", "newResourceManagerShape")
+		c07Fields(s, e, sf, "call", "callFields")
+		c07Fields(s, e, sf, "flightGroup", "flightGroupFields")
+		c07Fields(s, e, lc, "lockedGroup", "lockedGroupFields")
+		c07Fields(s, e, rm, "ResourceManager", "resourceManagerFields")
 		// the users named in the property's anchors: one flight per cache key
 		c07Calls(s, e, "core/stores/cache/cachenode.go", "cacheNode.doTake", "barrier", "cacheNodeBarrierCalls")
 		c07Calls(s, e, "core/collection/cache.go", "Cache.Take", "barrier", "collectionCacheBarrierCalls")
